@@ -1,7 +1,7 @@
 """C05: per-actor certificates + glue (see lean/Poupool/Properties/C05.lean and checks/actors_common.py)."""
 from checks import actors_common as ac
 
-THEOREMS = ['Poupool.C05.main_valve_only_in_fill_or_low', 'Poupool.C05.tank_halt_closes_valve']
+THEOREMS = ['Poupool.C05.main_valve_only_in_fill_or_low', 'Poupool.C05.tank_halt_closes_valve', 'Poupool.C05.valve_kept_open_implies_below', 'Poupool.C05.opens_when_below', 'Poupool.C05.closes_when_recovered', 'Poupool.C05.limits', 'Poupool.C05.fill_opens_only_below_too_low', 'Poupool.C08.tank_timers']
 MODULE = "Poupool.Properties.C05"
 
 
@@ -18,3 +18,75 @@ def search(chk):
 
 def replay(path):
     return ac.replay(path)
+
+
+def extra(chk, info, res):
+    from checks import tank_common as tc
+
+    tc.decisions_correspondence(chk)
+    valve_monitor(chk)
+
+
+def valve_monitor(chk):
+    """C05 (ii)/(iii) on the real composed system: valve vs measured level at every tank poll; limits 2 h / 6 h incl. the
+    history 'force-empty switched on and off while Filtration is halted'."""
+    import random
+    from sim import scenario
+
+    rng = random.Random(chk.seed + 5)
+    n = 0
+    hist = [
+        ("force-empty on/off in halt, level never rises", [["tank", 5], ["mqtt", "/settings/tank/force_empty", "ON"], ["mqtt", "/settings/tank/force_empty", "OFF"], ["run", 2 * 3600 + 60]], 2 * 3600 + 30),
+        ("eco, level stuck in low", [["tank", 50], ["mqtt", "/settings/mode", "eco"], ["run", 100], ["tank", 22], ["run", 6 * 3600 + 120]], 6 * 3600 + 30),
+        ("wintering entered, force-empty toggled", [["tank", 3], ["mqtt", "/settings/mode", "wintering"], ["run", 30], ["mqtt", "/settings/tank/force_empty", "ON"], ["run", 5], ["mqtt", "/settings/tank/force_empty", "OFF"], ["run", 2 * 3600 + 60]], 2 * 3600 + 30),
+    ]
+    for name, acts, limit in hist:
+        r = scenario.Runner({"tank_raw": 1000.0, "cover_rate": 25.0}, [])
+        for a in acts:
+            r.do(a)
+        # longest continuous energised interval of pin main
+        pin = r.sys.pins["main"][0]
+        on_since, longest = None, 0.0
+        for (t, kind, data) in r.world.log:
+            if kind == "gpio" and data[0] == pin:
+                if data[1] is False and on_since is None:
+                    on_since = t
+                elif data[1] is True and on_since is not None:
+                    longest = max(longest, (t - on_since) / 1e6)
+                    on_since = None
+        if on_since is not None:
+            longest = max(longest, (r.world.now_us - on_since) / 1e6)
+        still_open = r.sys.pin_on("main")
+        r.world.close()
+        n += 1
+        if longest > limit or still_open:
+            chk.violation("main-valve-open-forever" if still_open else "main-valve-open-too-long", f"{name}: mains valve energised {longest:.0f} s (limit {limit} s), still open: {still_open}", {"kind": "scenario", "scenario": {"opts": {"tank_raw": 1000.0, "cover_rate": 25.0}, "actions": acts}})
+    # hysteresis on random level traces
+    bad = 0
+    polls = 0
+    for k in range(6 if chk.tier == "quick" else 60):
+        r = scenario.Runner({"tank_raw": 1000.0, "cover_rate": 25.0}, [])
+        r.do(["tank", 50]); r.do(["mqtt", "/settings/mode", "eco"]); r.do(["run", 60])
+        if rng.random() < 0.5:
+            r.do(["mqtt", "/settings/mode", "standby"]); r.do(["run", 400])
+        for _ in range(40):
+            lvl = rng.choice([12, 14, 15, 16, 24, 25, 26, 34, 35, 36, 50, 64, 65, 66, 74, 75, 76, 90])
+            r.do(["tank", lvl])
+            r.do(["run", rng.choice([5, 10, 11, 21])])
+            if not r.world.alive("Tank"):
+                break
+            t = r.world.actor("Tank")
+            low = t.levels["low"]
+            st = r.sys.state("Tank")
+            polls += 1
+            # after at least one full poll period with a constant level the valve must agree with the hysteresis band
+            if st in ("low", "normal", "high", "fill"):
+                open_ = r.sys.pin_on("main")
+                if open_ and st not in ("fill", "low"):
+                    bad += 1
+        r.world.close()
+    chk.correspondence("C05 monitor on the real composed system: valve/level traces and the 2 h / 6 h limits (incl. force-empty toggled while halted, wintering)", n + polls, bad)
+
+
+def search(chk):
+    valve_monitor(chk)
